@@ -1,9 +1,576 @@
-import PsyVerif.Model.DepTools
-import PsyVerif.Lemmas.MiniFSem
-/-! # C08 — loops reported parallelisable have no loop-carried dependence -/
+import PsyVerif.Lemmas.DepPart
+/-! # C08 — loops reported parallelisable have no loop-carried dependence
+
+Model: `PsyVerif/Model/DepTools.lean` (mirrors `DependencyTools.can_loop_be_parallelised` on MiniF loops, FIXED
+`d_<var>` name loop).  Per-iteration footprints are the element-level events of the tracing semantics `execT`
+(`execT_agrees` ties it to `MiniF.exec`).
+
+The pinned analysis is unsound in four ways, each exhibited on the model by a kernel-checked witness
+(`intdiv_counterexample`, `conditional_scalar_counterexample`, `stale_subscript_counterexample`,
+`inner_variable_counterexample`), so the full statement `C08_statement` is false; `C08_partial` proves it under
+the decidable side conditions `NoIntDiv`, `ScalarsUnconditional`, `SubscriptsStable` that exclude exactly these
+classes.  Termination of the (fixed) name loop is `depDistance_terminates` / `C08_terminates`; the pinned loop
+spins on two taken names (`dvar_loop_diverges`). -/
 namespace C08
 open MiniF
 
+/-! ## helper lemmas: accesses -/
+
+theorem exprAcc_read (c : Bool) (e : Expr) : ∀ a ∈ exprAcc c e, a.write = false ∧ a.subs.length ≤ 2 := by
+  induction e with
+  | lit n => intro a h; simp [exprAcc] at h
+  | var x => intro a h; simp only [exprAcc, List.mem_singleton] at h; subst h; simp
+  | idx1 y i ih =>
+    intro a h
+    simp only [exprAcc, List.mem_append, List.mem_singleton] at h
+    rcases h with h | h
+    · exact ih a h
+    · subst h; simp
+  | idx2 y i j ihi ihj =>
+    intro a h
+    simp only [exprAcc, List.mem_append, List.mem_singleton] at h
+    rcases h with (h | h) | h
+    · exact ihi a h
+    · exact ihj a h
+    · subst h; simp
+  | un op e ih => intro a h; exact ih a (by simpa only [exprAcc] using h)
+  | bin op p q ihp ihq =>
+    intro a h
+    simp only [exprAcc, List.mem_append] at h
+    rcases h with h | h
+    · exact ihp a h
+    · exact ihq a h
+
+theorem stmtAcc_spec (c : Bool) (s : Stmt) :
+    ∀ a ∈ stmtAcc c s, a.subs.length ≤ 2 ∧ (a.write = true → a.var ∈ C08.wvars s) := by
+  induction s generalizing c with
+  | skip => intro a h; simp [stmtAcc] at h
+  | seq p q ihp ihq =>
+    intro a h
+    simp only [stmtAcc, List.mem_append] at h
+    rcases h with h | h
+    · exact ⟨(ihp c a h).1, fun hw => by simp only [C08.wvars]; exact List.mem_append_left _ ((ihp c a h).2 hw)⟩
+    · exact ⟨(ihq c a h).1, fun hw => by simp only [C08.wvars]; exact List.mem_append_right _ ((ihq c a h).2 hw)⟩
+  | assign x e =>
+    intro a h
+    simp only [stmtAcc, List.mem_append, List.mem_singleton] at h
+    rcases h with h | h
+    · exact ⟨(exprAcc_read c e a h).2, fun hw => by rw [(exprAcc_read c e a h).1] at hw; exact absurd hw (by simp)⟩
+    · subst h; simp [C08.wvars]
+  | store1 y i e =>
+    intro a h
+    simp only [stmtAcc, List.mem_append, List.mem_singleton] at h
+    rcases h with (h | h) | h
+    · exact ⟨(exprAcc_read c e a h).2, fun hw => by rw [(exprAcc_read c e a h).1] at hw; exact absurd hw (by simp)⟩
+    · exact ⟨(exprAcc_read c i a h).2, fun hw => by rw [(exprAcc_read c i a h).1] at hw; exact absurd hw (by simp)⟩
+    · subst h; simp [C08.wvars]
+  | store2 y i j e =>
+    intro a h
+    simp only [stmtAcc, List.mem_append, List.mem_singleton] at h
+    rcases h with ((h | h) | h) | h
+    · exact ⟨(exprAcc_read c e a h).2, fun hw => by rw [(exprAcc_read c e a h).1] at hw; exact absurd hw (by simp)⟩
+    · exact ⟨(exprAcc_read c i a h).2, fun hw => by rw [(exprAcc_read c i a h).1] at hw; exact absurd hw (by simp)⟩
+    · exact ⟨(exprAcc_read c j a h).2, fun hw => by rw [(exprAcc_read c j a h).1] at hw; exact absurd hw (by simp)⟩
+    · subst h; simp [C08.wvars]
+  | ite cnd t f iht ihf =>
+    intro a h
+    simp only [stmtAcc, List.mem_append] at h
+    rcases h with (h | h) | h
+    · exact ⟨(exprAcc_read c cnd a h).2, fun hw => by rw [(exprAcc_read c cnd a h).1] at hw; exact absurd hw (by simp)⟩
+    · exact ⟨(iht true a h).1, fun hw => by simp only [C08.wvars]; exact List.mem_append_left _ ((iht true a h).2 hw)⟩
+    · exact ⟨(ihf true a h).1, fun hw => by simp only [C08.wvars]; exact List.mem_append_right _ ((ihf true a h).2 hw)⟩
+  | loop v lo hi st b ih =>
+    intro a h
+    simp only [stmtAcc, List.mem_append, List.mem_cons, List.not_mem_nil, or_false] at h
+    rcases h with (((h | h) | h) | h) | h
+    · rcases h with h | h <;> subst h <;> simp [C08.wvars]
+    · exact ⟨(exprAcc_read c lo a h).2, fun hw => by rw [(exprAcc_read c lo a h).1] at hw; exact absurd hw (by simp)⟩
+    · exact ⟨(exprAcc_read c hi a h).2, fun hw => by rw [(exprAcc_read c hi a h).1] at hw; exact absurd hw (by simp)⟩
+    · exact ⟨(exprAcc_read c st a h).2, fun hw => by rw [(exprAcc_read c st a h).1] at hw; exact absurd hw (by simp)⟩
+    · exact ⟨(ih true a h).1, fun hw => by simp only [C08.wvars]; exact List.mem_cons_of_mem _ ((ih true a h).2 hw)⟩
+
+theorem body_mem_loopAccesses (v : Nat) (lo hi st : Expr) (body : Stmt) :
+    ∀ a ∈ stmtAcc false body, a ∈ loopAccesses v lo hi st body := by
+  intro a h
+  simp only [loopAccesses]
+  exact List.mem_append_right _ h
+
+/-! ## helper lemmas: the scans of `_array_access_parallelisable` -/
+
+theorem scanOthers_none (lvars : List Nat) (dn : List (Nat × Nat)) (w : Access) (pw : Nat) :
+    ∀ (os : List Access) (q : Nat), scanOthers lvars dn w pw os q = none →
+      ∀ o ∈ os, indepPair lvars dn w.subs o.subs = true := by
+  intro os
+  induction os with
+  | nil => intro q _ o h; simp at h
+  | cons o' os ih =>
+    intro q hs o ho
+    simp only [scanOthers] at hs
+    split at hs
+    · rename_i hind
+      simp only [List.mem_cons] at ho
+      rcases ho with rfl | ho
+      · exact hind
+      · exact ih _ hs o ho
+    · exact absurd hs (by simp)
+
+theorem scanWrites_none (lvars : List Nat) (dn : List (Nat × Nat)) (all : List Access) :
+    ∀ (ws : List Access) (pw : Nat), scanWrites lvars dn all ws pw = none →
+      ∀ w ∈ ws, w.write = true → ∀ o ∈ all, indepPair lvars dn w.subs o.subs = true := by
+  intro ws
+  induction ws with
+  | nil => intro pw _ w h; simp at h
+  | cons w' ws ih =>
+    intro pw hs w hw hwr o ho
+    simp only [scanWrites] at hs
+    simp only [List.mem_cons] at hw
+    split at hs
+    · rename_i hw'
+      split at hs
+      · exact absurd hs (by simp)
+      · rename_i hso
+        rcases hw with rfl | hw
+        · exact scanOthers_none lvars dn w pw all 0 hso o ho
+        · exact ih _ hs w hw hwr o ho
+    · rename_i hw'
+      rcases hw with rfl | hw
+      · exact absurd hwr hw'
+      · exact ih _ hs w hw hwr o ho
+
+theorem arrayPar_none {lvars : List Nat} {dn : List (Nat × Nat)} {accs : List Access}
+    (h : arrayPar lvars dn accs = none) {w o : Access} (hw : w ∈ accs) (hwr : w.write = true) (ho : o ∈ accs) :
+    indepPair lvars dn w.subs o.subs = true := by
+  simp only [arrayPar] at h
+  split at h
+  · rename_i hall
+    simp only [List.all_eq_true, Bool.not_eq_eq_eq_not, Bool.not_true] at hall
+    rw [hall w hw] at hwr
+    exact absurd hwr (by simp)
+  · exact scanWrites_none lvars dn accs accs 0 h w hw hwr o ho
+
+/-! ## helper lemmas: a separating position separates the locations -/
+
+theorem sub_mem {es : List Expr} {p : Nat} (h : p < es.length) : sub es p ∈ es := by
+  simp only [sub, List.getD_eq_getElem?_getD, List.getElem?_eq_getElem h, Option.getD_some]
+  exact List.getElem_mem h
+
+/-- a distance of zero is only reported when both subscripts contain the loop variable as a linear atom -/
+theorem dist0_mentions {i : Nat} {dn : List (Nat × Nat)} {w o : Expr} (hw : noDivMod w = true)
+    (ho : noDivMod o = true) (h : depDistance i dn w o = some 0) : i ∈ C08.evars w ∧ i ∈ C08.evars o := by
+  have hdw := (norm_sound w ⟨fun _ => 0⟩ hw).1
+  have hdo := (norm_sound o ⟨fun _ => 0⟩ ho).1
+  unfold depDistance at h
+  split at h
+  case isFalse => exact absurd h (by simp)
+  split at h
+  case h_1 => exact absurd h (by simp)
+  simp only [hdw, hdo, Int.mul_one] at h
+  split at h
+  case isTrue => exact absurd h (by simp)
+  split at h
+  case isTrue => exact absurd h (by simp)
+  rename_i hcg
+  split at h
+  case isTrue => exact absurd h (by simp)
+  rename_i hst
+  have hst' : sameTerms (norm w) (norm o) = true := by simpa using hst
+  have hc := sameTerms_coef hdw hdo hst'
+  have hcg' : coef (norm o).terms (.var i) ≠ 0 := by simpa using hcg
+  have mem : ∀ e : Expr, coef (norm e).terms (.var i) ≠ 0 → i ∈ C08.evars e := by
+    intro e hne
+    by_cases hm : ∃ c, (Expr.var i, c) ∈ (norm e).terms
+    · obtain ⟨c, hc⟩ := hm
+      exact norm_atom_vars e (.var i) c hc i (by simp [C08.evars])
+    · exact absurd (coef_eq_zero_of_not_mem (fun c hc => hm ⟨c, hc⟩)) hne
+  exact ⟨mem w (by rw [hc]; exact hcg'), mem o hcg'⟩
+
 /-! ## The property -/
+
+/-- side condition 1: no subscript of the loop body contains integer division or MOD -/
+def NoIntDiv (body : Stmt) : Prop := ∀ a ∈ stmtAcc false body, ∀ s ∈ a.subs, noDivMod s = true
+
+/-- side condition 3: a variable used in a subscript is not assigned by the loop body, unless it is an inner loop
+variable in a subscript that does not use the analysed loop variable -/
+def SubscriptsStable (v : Nat) (body : Stmt) : Prop :=
+  ∀ a ∈ stmtAcc false body, ∀ s ∈ a.subs, ∀ x ∈ C08.evars s,
+    x ∈ C08.wvars body → x ∈ loopVars body ∧ v ∉ C08.evars s
+
+/-- Fortran rules the model relies on: the loop variable is not assigned in the body and loop variables are
+never subscripted -/
+def WellFormed (v : Nat) (lo hi st : Expr) (body : Stmt) : Prop :=
+  v ∉ C08.wvars body ∧ ∀ x ∈ loopVars body, isArray (accsOf x (loopAccesses v lo hi st body)) = false
+
+/-- side condition 2: every scalar the body writes and the analysis lets pass (it skips loop variables; it
+accepts a scalar whose first access is a write) is written unconditionally before it is read -/
+def ScalarsUnconditional (v : Nat) (lo hi st : Expr) (body : Stmt) : Prop :=
+  ∀ x ∈ C08.wvars body, isArray (accsOf x (loopAccesses v lo hi st body)) = false →
+    (x ∈ loopVars body ∨ scalarPar (accsOf x (loopAccesses v lo hi st body)) = none) →
+    mustWriteFirst x body = true
+
+instance (body : Stmt) : Decidable (NoIntDiv body) := by unfold NoIntDiv; infer_instance
+instance (v : Nat) (body : Stmt) : Decidable (SubscriptsStable v body) := by unfold SubscriptsStable; infer_instance
+instance (v : Nat) (lo hi st : Expr) (body : Stmt) : Decidable (WellFormed v lo hi st body) := by
+  unfold WellFormed; infer_instance
+instance (v : Nat) (lo hi st : Expr) (body : Stmt) : Decidable (ScalarsUnconditional v lo hi st body) := by
+  unfold ScalarsUnconditional; infer_instance
+
+/-- iteration `val` (run from `σ`) writes `l`, iteration `val'` (run from `σ'`) reads or writes `l` -/
+def Conflict (v : Nat) (body : Stmt) (σ σ' : Store) (val val' : Int) (l : Loc) : Prop :=
+  (true, l) ∈ iterTrace v body σ val ∧ ∃ b, (b, l) ∈ iterTrace v body σ' val'
+
+/-- what "no loop-carried dependence" means for the loop `do v = lo, hi, st; body`: two distinct iterations, run
+from stores that differ at most on what the loop itself assigns, touch a common location with a write only if it
+is a scalar every iteration unconditionally writes before reading -/
+def Independent (v : Nat) (body : Stmt) : Prop :=
+  ∀ (σ σ' : Store), AgreeOff (v :: C08.wvars body) σ σ' → ∀ (val val' : Int), val ≠ val' →
+    ∀ l, Conflict v body σ σ' val val' l → ∃ x, l = (x, 0, 0) ∧ privScalar body x = true
+
+/-- the property at full strength (FALSE of the pinned analysis, see the counterexamples) -/
+def C08_statement : Prop :=
+  ∀ (dn : List (Nat × Nat)) (v : Nat) (lo hi st : Expr) (body : Stmt),
+    WellFormed v lo hi st body → canParallelise dn v lo hi st body = true → Independent v body
+
+/-- **tracing semantics = MiniF semantics** -/
+theorem execT_agrees (s : Stmt) (σ : Store) : (execT s σ).1 = exec s σ := execT_fst s σ
+
+/-- the two accesses of an independent pair never touch the same element in two different iterations -/
+theorem pair_sound {dn : List (Nat × Nat)} {v : Nat} {body : Stmt} {a1 a2 : Access}
+    (h1 : a1 ∈ stmtAcc false body) (h2 : a2 ∈ stmtAcc false body)
+    (hind : indepPair (v :: loopVars body) dn a1.subs a2.subs = true)
+    (hv : v ∉ C08.wvars body) (hdiv : NoIntDiv body) (hst : SubscriptsStable v body)
+    {σ σ' τ1 τ2 : Store} {val val' : Int} (hval : val ≠ val')
+    (hσ : AgreeOff (v :: C08.wvars body) σ σ')
+    (hτ1 : AgreeOff (C08.wvars body) (σ.set (v, 0, 0) val) τ1)
+    (hτ2 : AgreeOff (C08.wvars body) (σ'.set (v, 0, 0) val') τ2) :
+    locOf a1 τ1 ≠ locOf a2 τ2 := by
+  -- the two stores agree on everything the body does not write, except the loop variable
+  have hag : ∀ x, x ∉ C08.wvars body → x ≠ v → ∀ p q, τ1 (x, p, q) = τ2 (x, p, q) := by
+    intro x hx hxv p q
+    have hne : (x, p, q) ≠ ((v, 0, 0) : Loc) := fun he => hxv (congrArg Prod.fst he)
+    rw [← hτ1 x hx p q, ← hτ2 x hx p q, Store.set_other _ _ hne, Store.set_other _ _ hne]
+    exact hσ x (by simp [hx, hxv]) p q
+  have hv1 : τ1 (v, 0, 0) = val := by rw [← hτ1 v hv 0 0]; simp
+  have hv2 : τ2 (v, 0, 0) = val' := by rw [← hτ2 v hv 0 0]; simp
+  obtain ⟨p, hp1, hp2, hsep⟩ := indepPair_separates hind
+  have hm1 := sub_mem hp1
+  have hm2 := sub_mem hp2
+  have hd1 := hdiv a1 h1 _ hm1
+  have hd2 := hdiv a2 h2 _ hm2
+  have hne : eval (sub a1.subs p) τ1 ≠ eval (sub a2.subs p) τ2 := by
+    rcases hsep with ⟨hi0, hfree⟩ | hd0
+    · apply indep0_sound hd1 hd2 hi0
+      intro x hx p' q'
+      have hxl : x ∉ v :: loopVars body := by
+        intro hxl
+        rcases hx with hx | hx
+        · exact (hfree x hxl).1 hx
+        · exact (hfree x hxl).2 hx
+      have hxw : x ∉ C08.wvars body := by
+        intro hxw
+        rcases hx with hx | hx
+        · exact hxl (List.mem_cons_of_mem _ (hst a1 h1 _ hm1 x hx hxw).1)
+        · exact hxl (List.mem_cons_of_mem _ (hst a2 h2 _ hm2 x hx hxw).1)
+      exact hag x hxw (fun he => hxl (he ▸ List.mem_cons_self)) p' q'
+    · simp only [List.headD_cons] at hd0
+      obtain ⟨hiw, hio⟩ := dist0_mentions hd1 hd2 hd0
+      intro heq
+      have := dist0_sound hd1 hd2 hd0 τ1 τ2 (by
+        intro x hxv hx p' q'
+        have hxw : x ∉ C08.wvars body := by
+          intro hxw
+          rcases hx with hx | hx
+          · exact (hst a1 h1 _ hm1 x hx hxw).2 hiw
+          · exact (hst a2 h2 _ hm2 x hx hxw).2 hio
+        exact hag x hxw hxv p' q') heq
+      rw [hv1, hv2] at this
+      exact hval this
+  have hl1 := (stmtAcc_spec false body a1 h1).1
+  intro hloc
+  simp only [locOf, Prod.mk.injEq] at hloc
+  have hp : p = 0 ∨ p = 1 := by omega
+  rcases hp with rfl | rfl
+  · exact hne hloc.2.1
+  · exact hne hloc.2.2
+
+/-- **C08, partial**: if the model of `can_loop_be_parallelised` reports the loop parallelisable, and no subscript
+contains integer division or MOD, accepted scalars are written unconditionally, and subscript variables are not
+assigned in the body, then no location is written by one iteration and read or written by another — except
+scalars every iteration unconditionally writes before reading. -/
+theorem C08_partial (dn : List (Nat × Nat)) (v : Nat) (lo hi st : Expr) (body : Stmt)
+    (hwf : WellFormed v lo hi st body) (hpar : canParallelise dn v lo hi st body = true)
+    (hdiv : NoIntDiv body) (hsc : ScalarsUnconditional v lo hi st body) (hst : SubscriptsStable v body) :
+    Independent v body := by
+  intro σ σ' hσ val val' hval l ⟨hw, b, ho⟩
+  obtain ⟨hv, hlv⟩ := hwf
+  obtain ⟨a1, ha1, hk1, τ1, hτ1, hl1⟩ := execT_explained false body _ _ hw
+  obtain ⟨a2, ha2, hk2, τ2, hτ2, hl2⟩ := execT_explained false body _ _ ho
+  simp only at hk1 hl1 hl2
+  have hx : a1.var = a2.var := by
+    have := hl1.symm.trans hl2
+    simp only [locOf, Prod.mk.injEq] at this
+    exact this.1
+  have hwv : a1.var ∈ C08.wvars body := (stmtAcc_spec false body a1 ha1).2 hk1
+  have hall1 := body_mem_loopAccesses v lo hi st body a1 ha1
+  have hall2 := body_mem_loopAccesses v lo hi st body a2 ha2
+  have hxv : a1.var ≠ v := fun he => hv (he ▸ hwv)
+  -- verdict of the model for this variable
+  have hverd : varVerdict (v :: loopVars body) dn (loopAccesses v lo hi st body) a1.var = none := by
+    simp only [canParallelise, List.all_eq_true, Option.isNone_iff_eq_none] at hpar
+    exact hpar a1 hall1
+  have hm1 : a1 ∈ accsOf a1.var (loopAccesses v lo hi st body) := by
+    simp only [accsOf, List.mem_filter, beq_self_eq_true, and_true]; exact hall1
+  have hm2 : a2 ∈ accsOf a1.var (loopAccesses v lo hi st body) := by
+    simp only [accsOf, List.mem_filter, beq_iff_eq]; exact ⟨hall2, hx.symm⟩
+  by_cases harr : isArray (accsOf a1.var (loopAccesses v lo hi st body)) = true
+  · -- array: the pair was tested and found independent
+    have hnl : a1.var ∉ v :: loopVars body := by
+      intro hmem
+      simp only [List.mem_cons] at hmem
+      rcases hmem with he | hmem
+      · exact hxv he
+      · rw [hlv _ hmem] at harr; exact absurd harr (by simp)
+    simp only [varVerdict, if_neg hnl, harr, if_true] at hverd
+    have hind := arrayPar_none hverd hm1 hk1 hm2
+    exact absurd (hl1.symm.trans hl2) (pair_sound ha1 ha2 hind hv hdiv hst hval hσ hτ1 hτ2)
+  · -- scalar: accepted, hence unconditionally written first
+    have harr' : isArray (accsOf a1.var (loopAccesses v lo hi st body)) = false := by simpa using harr
+    have hacc : a1.var ∈ loopVars body ∨ scalarPar (accsOf a1.var (loopAccesses v lo hi st body)) = none := by
+      by_cases hmem : a1.var ∈ loopVars body
+      · exact Or.inl hmem
+      · right
+        have hnl : a1.var ∉ v :: loopVars body := by
+          simp only [List.mem_cons, not_or]; exact ⟨hxv, hmem⟩
+        simpa only [varVerdict, if_neg hnl, harr', Bool.false_eq_true, if_false] using hverd
+    have hmw := hsc a1.var hwv harr' hacc
+    have hsubs : a1.subs = [] := by
+      simp only [isArray, List.any_eq_false, Bool.not_eq_eq_eq_not] at harr'
+      have := harr' a1 hm1
+      simpa using this
+    refine ⟨a1.var, ?_, ?_⟩
+    · rw [hl1]; simp [locOf, hsubs, sub, eval]
+    · simp only [privScalar, Bool.and_eq_true, Bool.not_eq_eq_eq_not, Bool.not_true, hmw, and_true]
+      simp only [isArray, List.any_eq_false] at harr' ⊢
+      intro a ha
+      apply harr' a
+      simp only [accsOf, List.mem_filter] at ha ⊢
+      exact ⟨body_mem_loopAccesses v lo hi st body a ha.1, ha.2⟩
+
+/-! ## The sequentially executed loop -/
+
+/-- trace number `a` of the sequential run is the trace of one iteration started from a store that differs from
+the initial one only on the loop variable and on variables the body writes -/
+theorem iterTraces_spec (v : Nat) (body : Stmt) (lo step : Int) :
+    ∀ (n : Nat) (k : Int) (σ : Store) (a : Nat), a < n →
+      ∃ σa, AgreeOff (v :: C08.wvars body) σ σa ∧
+        (iterTraces v body lo step n k σ)[a]? = some (iterTrace v body σa (lo + (k + a) * step)) := by
+  intro n
+  induction n with
+  | zero => intro k σ a h; exact absurd h (Nat.not_lt_zero _)
+  | succ n ih =>
+    intro k σ a h
+    cases a with
+    | zero => exact ⟨σ, AgreeOff.refl _ _, by simp [iterTraces, iterTrace]⟩
+    | succ a =>
+      obtain ⟨σa, h1, h2⟩ := ih (k + 1) (execT body (σ.set (v, 0, 0) (lo + k * step))).1 a (by omega)
+      refine ⟨σa, AgreeOff.trans ?_ h1, ?_⟩
+      · rw [execT_fst]
+        exact (agreeOff_set (AgreeOff.refl _ σ) (by simp) _ _ _).trans
+          ((exec_agreeOff body _).mono (fun x hx => List.mem_cons_of_mem _ hx))
+      · simp only [iterTraces, List.getElem?_cons_succ, h2]
+        have : k + 1 + (a : Int) = k + ((a + 1 : Nat) : Int) := by push_cast; omega
+        rw [this]
+
+/-- **C08 for the running loop**: under the hypotheses of `C08_partial`, in the sequential execution of the loop
+(any start value, non-zero step, any trip count, any initial store) two different iterations never touch a common
+location with a write, except privatisable scalars. -/
+theorem C08_sequential (dn : List (Nat × Nat)) (v : Nat) (lo hi st : Expr) (body : Stmt)
+    (hwf : WellFormed v lo hi st body) (hpar : canParallelise dn v lo hi st body = true)
+    (hdiv : NoIntDiv body) (hsc : ScalarsUnconditional v lo hi st body) (hst : SubscriptsStable v body)
+    (l0 step : Int) (hstep : step ≠ 0) (n : Nat) (σ : Store) (a b : Nat) (ha : a < n) (hb : b < n) (hab : a ≠ b)
+    (ta tb : List Ev) (hta : (iterTraces v body l0 step n 0 σ)[a]? = some ta)
+    (htb : (iterTraces v body l0 step n 0 σ)[b]? = some tb)
+    (l : Loc) (hw : (true, l) ∈ ta) (bb : Bool) (ho : (bb, l) ∈ tb) :
+    ∃ x, l = (x, 0, 0) ∧ privScalar body x = true := by
+  obtain ⟨σa, hσa, hea⟩ := iterTraces_spec v body l0 step n 0 σ a ha
+  obtain ⟨σb, hσb, heb⟩ := iterTraces_spec v body l0 step n 0 σ b hb
+  rw [hta] at hea
+  rw [htb] at heb
+  simp only [Option.some.injEq] at hea heb
+  subst hea heb
+  have hag : AgreeOff (v :: C08.wvars body) σa σb := fun x hx p q => (hσa x hx p q).symm.trans (hσb x hx p q)
+  have hval : l0 + (0 + (a : Int)) * step ≠ l0 + (0 + (b : Int)) * step := by
+    intro he
+    have h1 : (a : Int) * step = (b : Int) * step := by
+      simp only [Int.zero_add] at he
+      omega
+    have h2 := Int.eq_of_mul_eq_mul_right hstep h1
+    exact hab (by exact_mod_cast h2)
+  exact C08_partial dn v lo hi st body hwf hpar hdiv hsc hst σa σb hag _ _ hval l ⟨hw, bb, ho⟩
+
+/-! ## Termination of the `d_<var>` name loop -/
+
+theorem freshLoop_spec (taken : List Nat) :
+    ∀ (fuel idx : Nat), (taken.filter (fun x => decide (idx ≤ x))).length < fuel →
+      ∃ n, freshLoop taken fuel idx = some n ∧ n ∉ taken ∧ idx ≤ n ∧ ∀ m, idx ≤ m → m < n → m ∈ taken := by
+  intro fuel
+  induction fuel with
+  | zero => intro idx h; exact absurd h (Nat.not_lt_zero _)
+  | succ fuel ih =>
+    intro idx h
+    simp only [freshLoop]
+    split
+    · rename_i hmem
+      have hlt : (taken.filter (fun x => decide (idx + 1 ≤ x))).length
+          < (taken.filter (fun x => decide (idx ≤ x))).length := by
+        have hff : taken.filter (fun x => decide (idx + 1 ≤ x))
+            = (taken.filter (fun x => decide (idx ≤ x))).filter (fun x => decide (idx + 1 ≤ x)) := by
+          rw [List.filter_filter]
+          apply List.filter_congr
+          intro x _
+          by_cases hx : idx + 1 ≤ x
+          · have : idx ≤ x := by omega
+            simp [hx, this]
+          · simp [hx]
+        rw [hff]
+        apply List.length_filter_lt_length_iff_exists.mpr
+        exact ⟨idx, by simp [hmem], by simp⟩
+      obtain ⟨n, h1, h2, h3, h4⟩ := ih (idx + 1) (by omega)
+      refine ⟨n, h1, h2, by omega, ?_⟩
+      intro m hm hmn
+      by_cases he : m = idx
+      · exact he ▸ hmem
+      · exact h4 m (by omega) hmn
+    · rename_i hmem
+      exact ⟨idx, rfl, hmem, Nat.le_refl _, fun m h1 h2 => absurd h1 (by omega)⟩
+
+/-- the FIXED name loop always finds a name: the first candidate `d_<var>, d1_<var>, d2_<var>, …` that is not
+a key of the symbol map; the fuel `|symbol map| + 1` is never exhausted -/
+theorem depDistance_terminates (taken : List Nat) :
+    ∃ n, freshD taken = some n ∧ n ∉ taken ∧ ∀ m, m < n → m ∈ taken := by
+  obtain ⟨n, h1, h2, _, h4⟩ := freshLoop_spec taken (taken.length + 1) 0
+    (Nat.lt_succ_of_le (List.length_filter_le _ _))
+  exact ⟨n, h1, h2, fun m hm => h4 m (Nat.zero_le _) hm⟩
+
+/-- the analysis answers for every pair of subscripts: `depDistance` never fails for lack of fuel -/
+theorem C08_terminates (dn : List (Nat × Nat)) (w o : Expr) : (freshD (takenOf dn w o)).isSome = true := by
+  obtain ⟨n, h, _⟩ := depDistance_terminates (takenOf dn w o)
+  simp [h]
+
+/-- the PINNED loop (no `idx += 1`) never returns when both `d_<var>` and `d1_<var>` are taken, whatever the fuel -/
+theorem dvar_loop_diverges : ∀ fuel, freshPinned [0, 1] fuel = none := by
+  have h : ∀ fuel cand, cand ∈ [0, 1] → pinnedLoop [0, 1] fuel cand = none := by
+    intro fuel
+    induction fuel with
+    | zero => intro cand _; rfl
+    | succ fuel ih =>
+      intro cand hc
+      simp only [pinnedLoop, hc, if_true]
+      exact ih 1 (by simp)
+  intro fuel
+  exact h fuel 0 (by simp)
+
+example : freshD [0, 1] = some 2 := by decide
+example : freshD [1, 0, 2, 5] = some 3 := by decide
+example : freshPinned [0] 5 = some 1 := by decide
+
+/-! ## Counterexamples (ids: i=0, a=1, b=2, c=3, t=4, j=5, m=6) -/
+
+def zeroStore : Store := ⟨fun _ => 0⟩
+
+/-- `do i = 0, 5: a(i/2+1) = b(i)` -/
+def intdivBody : Stmt := .store1 1 (.bin .add (.bin .div (.var 0) (.lit 2)) (.lit 1)) (.idx1 2 (.var 0))
+
+/-- the model (like the real code) reports the loop parallelisable, but iterations 0 and 1 both write `a(1)` -/
+theorem intdiv_counterexample :
+    canParallelise [] 0 (.lit 0) (.lit 5) (.lit 1) intdivBody = true ∧
+    WellFormed 0 (.lit 0) (.lit 5) (.lit 1) intdivBody ∧
+    Conflict 0 intdivBody zeroStore zeroStore 0 1 (1, 1, 0) ∧ ¬ NoIntDiv intdivBody := by
+  refine ⟨by decide, by decide, ⟨by decide, true, by decide⟩, by decide⟩
+
+/-- `do i: if (b(i) > 10) t = b(i); c(i) = t` -/
+def condBody : Stmt :=
+  .seq (.ite (.bin .gt (.idx1 2 (.var 0)) (.lit 10)) (.assign 4 (.idx1 2 (.var 0))) .skip)
+    (.store1 3 (.var 0) (.var 4))
+
+def condStore : Store := storeOf [((2, 0, 0), 11)]
+
+/-- reported parallelisable, but iteration 0 (condition true) writes `t` and iteration 1 (condition false) reads it;
+`t` is not a scalar every iteration unconditionally writes -/
+theorem conditional_scalar_counterexample :
+    canParallelise [] 0 (.lit 0) (.lit 5) (.lit 1) condBody = true ∧
+    WellFormed 0 (.lit 0) (.lit 5) (.lit 1) condBody ∧
+    Conflict 0 condBody condStore condStore 0 1 (4, 0, 0) ∧ privScalar condBody 4 = false ∧
+    ¬ ScalarsUnconditional 0 (.lit 0) (.lit 5) (.lit 1) condBody := by
+  refine ⟨by decide, by decide, ⟨by decide, false, by decide⟩, by decide, by decide⟩
+
+/-- `do i: t = b(i); a(i+t) = 1` -/
+def staleBody : Stmt := .seq (.assign 4 (.idx1 2 (.var 0))) (.store1 1 (.bin .add (.var 0) (.var 4)) (.lit 1))
+
+def staleStore : Store := storeOf [((2, 0, 0), 1)]
+
+/-- reported parallelisable, but with `b(0)=1, b(1)=0` iterations 0 and 1 both write `a(1)` -/
+theorem stale_subscript_counterexample :
+    canParallelise [] 0 (.lit 0) (.lit 5) (.lit 1) staleBody = true ∧
+    WellFormed 0 (.lit 0) (.lit 5) (.lit 1) staleBody ∧
+    Conflict 0 staleBody staleStore staleStore 0 1 (1, 1, 0) ∧ ¬ SubscriptsStable 0 staleBody := by
+  refine ⟨by decide, by decide, ⟨by decide, true, by decide⟩, by decide⟩
+
+/-- `do i: do j = 1, 2: m(i+j, j-j+1) = 1` -/
+def innerBody : Stmt :=
+  .loop 5 (.lit 1) (.lit 2) (.lit 1)
+    (.store2 6 (.bin .add (.var 0) (.var 5)) (.bin .add (.bin .sub (.var 5) (.var 5)) (.lit 1)) (.lit 1))
+
+/-- reported parallelisable in `i`, but (i,j)=(1,2) and (2,1) both write `m(3,1)` -/
+theorem inner_variable_counterexample :
+    canParallelise [] 0 (.lit 1) (.lit 4) (.lit 1) innerBody = true ∧
+    WellFormed 0 (.lit 1) (.lit 4) (.lit 1) innerBody ∧
+    Conflict 0 innerBody zeroStore zeroStore 1 2 (6, 3, 1) ∧ ¬ SubscriptsStable 0 innerBody := by
+  refine ⟨by decide, by decide, ⟨by decide, true, by decide⟩, by decide⟩
+
+/-- the property at full strength fails on the model of the pinned analysis -/
+theorem C08_counterexample : ¬ C08_statement := by
+  intro h
+  obtain ⟨hpar, hwf, hc, _⟩ := intdiv_counterexample
+  obtain ⟨x, hx, _⟩ := h [] 0 (.lit 0) (.lit 5) (.lit 1) intdivBody hwf hpar zeroStore zeroStore
+    (AgreeOff.refl _ _) 0 1 (by decide) (1, 1, 0) hc
+  simp only [Prod.mk.injEq] at hx
+  omega
+
+/-! ## Non-vacuity and sanity evaluations -/
+
+/-- `do i: t = b(i); a(i) = a(i) + t; do j = 1, 3: m(i, j) = m(i, j+1) + a(i)` -/
+def goodBody : Stmt :=
+  .seq (.assign 4 (.idx1 2 (.var 0)))
+    (.seq (.store1 1 (.var 0) (.bin .add (.idx1 1 (.var 0)) (.var 4)))
+      (.loop 5 (.lit 1) (.lit 3) (.lit 1)
+        (.store2 6 (.var 0) (.var 5) (.bin .add (.idx2 6 (.var 0) (.bin .add (.var 5) (.lit 1))) (.idx1 1 (.var 0))))))
+
+/-- all hypotheses of `C08_partial` hold together on a loop with a private scalar, an array update and a nest -/
+example : WellFormed 0 (.lit 0) (.var 7) (.lit 1) goodBody ∧
+    canParallelise [] 0 (.lit 0) (.var 7) (.lit 1) goodBody = true ∧ NoIntDiv goodBody ∧
+    ScalarsUnconditional 0 (.lit 0) (.var 7) (.lit 1) goodBody ∧ SubscriptsStable 0 goodBody := by
+  refine ⟨by decide, by decide, by decide, by decide, by decide⟩
+
+example : Independent 0 goodBody :=
+  C08_partial [] 0 (.lit 0) (.var 7) (.lit 1) goodBody (by decide) (by decide) (by decide) (by decide) (by decide)
+
+-- the exception is exercised: both iterations write the private scalar `t`
+example : Conflict 0 goodBody zeroStore zeroStore 0 1 (4, 0, 0) ∧ privScalar goodBody 4 = true :=
+  ⟨⟨by decide, true, by decide⟩, by decide⟩
+
+-- `a(i) = a(i-1)`: dependency (202); `a(5) = b(i)`: write-write race (201); `t = t + b(i)`: reduction (102)
+example : messages [] 0 (.lit 1) (.lit 5) (.lit 1)
+    (.store1 1 (.var 0) (.idx1 1 (.bin .sub (.var 0) (.lit 1)))) = [(202, 1)] := by decide
+example : messages [] 0 (.lit 1) (.lit 5) (.lit 1) (.store1 1 (.lit 5) (.idx1 2 (.var 0))) = [(201, 1)] := by decide
+example : messages [] 0 (.lit 1) (.lit 5) (.lit 1)
+    (.assign 4 (.bin .add (.var 4) (.idx1 2 (.var 0)))) = [(102, 4)] := by decide
+example : messages [] 0 (.lit 1) (.lit 5) (.lit 1) (.assign 4 (.idx1 2 (.var 0))) = [(101, 4)] := by decide
+-- `a(2*i) = a(2*i+1)`: distance -1/2 is not an integer, reported as a dependency, as the real code does
+example : depDistance 0 [] (.bin .mul (.lit 2) (.var 0)) (.bin .add (.bin .mul (.lit 2) (.var 0)) (.lit 1)) = none := by
+  decide
+example : depDistance 0 [] (.var 0) (.bin .sub (.var 0) (.lit 1)) = some 1 := by decide
+-- names `d_i` (id 8) and `d1_i` (id 9) in the subscripts: the fixed loop picks `d2_i`, the distance is still found
+example : depDistance 0 [(8, 0), (9, 1)] (.bin .add (.var 0) (.var 8)) (.bin .add (.var 0) (.var 8)) = some 0 := by
+  decide
 
 end C08
